@@ -11,19 +11,30 @@ LISTEN_WORKER = "server::listen::{closure#1}"
 
 # may-panic constructs on the request path, each with the reason it cannot fire for any peer input
 PANIC_TABLE = {
-    "varlink:<VarlinkService as ConnectionHandler>::handle:assert:overflow:Sub#0": "len - 1 behind the `len == 0` early return",
-    "varlink:<VarlinkService as ConnectionHandler>::handle:index:core::str::traits::<impl Index<I> for str>::index#0": "method[..n]: n is the byte position of an ASCII '.' returned by rfind on the same string, always a char boundary",
-    "varlink:VarlinkService::call:index:<HashMap<K, V, S, A> as Index<&Q>>::index#0": "ifaces[key] behind contains_key(key) (checked by C03.R2)",
-    "varlink:VarlinkService::call_upgraded:index:<HashMap<K, V, S, A> as Index<&Q>>::index#0": "ifaces[key] behind contains_key(key) (checked by C03.R2)",
-    "varlink:<VarlinkService as Interface>::call:index:<HashMap<K, V, S, A> as Index<&Q>>::index#0": "ifaces[key] behind contains_key(key) (checked by C03.R4)",
-    "varlink:<VarlinkService as Interface>::call:unwrap:Option::unwrap#0": "call.request.as_ref().unwrap(): Call::new always stores Some(request) (C04.R1 request-stored); upgraded calls never reach Interface::call",
-    "varlink:<VarlinkService as Interface>::call:unwrap:Result::unwrap#0": "inside json!({\"description\": <&'static str>}): serialising a string slice to a Value cannot fail",
-    "varlink:<VarlinkService as Interface>::call:unwrap:Result::unwrap#1": "inside json!({\"description\": <&'static str>}): serialising a string slice to a Value cannot fail",
-    "varlink:server::listen::{closure#1}:unwrap:Result::unwrap#0": "stream.split().unwrap(): try_clone of the accepted socket fails only on descriptor exhaustion; noted as a residual hazard (panics this worker, busy count leaks) — not input-controlled",
-    "varlink:server::Worker::new::{closure#0}:unwrap:Result::unwrap#0": "receiver.lock(): poisoned only if another worker panicked while holding it (it holds it only inside recv())",
-    "varlink:server::Worker::new::{closure#0}:unwrap:Result::unwrap#1": "recv(): the sender lives in the ThreadPool, which joins the workers before it is dropped",
-    "varlink:server::Worker::new::{closure#0}:unwrap:Result::unwrap#2": "num_busy.write(): poisoned only after a panic under that lock; the critical sections only add/subtract",
-    "varlink:server::Worker::new::{closure#0}:assert:overflow:Sub#0": "busy -= 1 after the producer's += 1 for the same job (C14.R4 pairing)",
+    # key: package : kind : operation <- where the consumed value comes from (independent of the enclosing function, so that
+    # moving the statement into a helper keeps its entry)
+    'varlink:assert:overflow:Sub<-arith+call:T::write|const':
+        "busy -= 1 after the producer's += 1 for the same job (C14.R4 pairing)",
+    'varlink:assert:overflow:Sub<-call:BufRead::read_until|const':
+        'len - 1 behind the `len == 0` early return',
+    'varlink:index:<HashMap<K, V, S, A> as Index<&Q>>::index<-arg+field:ifaces|arg':
+        'ifaces[key] behind contains_key(key) (checked by C03.R2)',
+    'varlink:index:<HashMap<K, V, S, A> as Index<&Q>>::index<-arg+field:ifaces|call:serde_json::from_value':
+        'ifaces[key] behind contains_key(key) (checked by C03.R4)',
+    'varlink:index:core::str::traits::<impl Index<I> for str>::index<-call:serde_json::from_slice|call:impl str::rfind':
+        "method[..n]: n is the byte position of an ASCII '.' returned by rfind on the same string, always a char boundary",
+    'varlink:unwrap:Option::unwrap<-arg':
+        'call.request.as_ref().unwrap(): Call::new always stores Some(request) (C04.R1 request-stored); upgraded calls never reach Interface::call',
+    'varlink:unwrap:Result::unwrap<-call:Stream::split':
+        'stream.split().unwrap(): try_clone of the accepted socket fails only on descriptor exhaustion; noted as a residual hazard (panics this worker, busy count leaks) — not input-controlled',
+    'varlink:unwrap:Result::unwrap<-call:T::lock':
+        'receiver.lock(): poisoned only if another worker panicked while holding it (it holds it only inside recv())',
+    'varlink:unwrap:Result::unwrap<-call:T::recv':
+        'recv(): the sender lives in the ThreadPool, which joins the workers before it is dropped',
+    'varlink:unwrap:Result::unwrap<-call:T::write':
+        'num_busy.write(): poisoned only after a panic under that lock; the critical sections only add/subtract',
+    'varlink:unwrap:Result::unwrap<-call:serde_json::to_value':
+        'inside json!({"description": <&\'static str>}): serialising a string slice to a Value cannot fail',
 }
 GEN_UNWRAP = "call.request.unwrap() in a generated dispatcher: Call::new always stores Some(request)"
 
@@ -117,7 +128,7 @@ def r3(cx):
         for ps in panic_sites(b):
             if ps["mac"] and ("eprintln" in ps["mac"] or "format" in ps["mac"]): continue
             n += 1
-            key = "%s:%s:%s" % (b.pkg, b.path, ps["key"])
+            key = "%s:%s" % (b.pkg, ps["skey"])
             if key in PANIC_TABLE: cx.ok("C06.R3", key, "%s %s" % (ps["sp"], b.path), "table: " + PANIC_TABLE[key])
             else: cx.bad("C06.R3", key, "%s %s" % (ps["sp"], b.path), "new may-panic construct (%s %s) on the request path: a peer-controlled value reaching it would kill the worker; it needs a reviewed table entry" % (ps["kind"], ps["what"]))
     cx.floor("C06.R3", "library functions on the request path", len(bodies), 15)
